@@ -66,6 +66,14 @@ CHECKS = {
         "(and the negative theorems for the protocol as originally coded). Tied to the code by a differential run of generated scripts x timeout settings x {RunJavascript, condition, action} with a wall-clock oracle.",
    note="Partial. Trusted: otto semantics and its statement-boundary polling of Interrupt, Go scheduler/channels/timers as modelled, wall-clock tolerances (300 ms, 3 re-runs before a timing verdict). A script blocked in a native call is stopped at its next boundary, not at the limit. The model is hand-written, not extracted.",
    technique="Lean 4 proof over a hand-written transition-system model + differential correspondence check with timing oracle", ref="5 (C14)"),
+ "C15": dict(
+   text="Lean 4 theorems (Props/C15.lean, 20) about the hook-level machine of cron.AddHooks (registry keyed by id or by (location,id), persistent/ephemeral, Indexed/LinearState), over all event histories by induction: the registry equals the stored scheduled rules after every "
+        "step of every hook-visible history (partial: the excluded events are exactly the code's bypasses, each refuted by a negative theorem with witness); a removed/replaced/expired/cleared rule is never run by any later tick; a tick runs only the stored, enabled rule of its job, "
+        "in the location that registered it; one-shots fire at most once and the rule is deleted; an ephemeral cron is re-fed when an indexed location loads. Tie: the real cron.AddHooks on real locations with the real InternalCron, a recording Cronner, and sys.System with the running cron, "
+        "compared after every operation with the hooked Location model (results, registry, Cronner calls, memory and storage, tick trees); the model's abstraction is compared with the theorem machine per step.",
+   note="Partial: registered-exactly-while-it-exists is refuted on the unchanged tree in 7 classes (listed, witnesses replayed each run). The refinement full model -> abstract machine is checked per operation, not proved. Due-ness/timing of the cron is C16's. "
+        "Trusted: harness Cronner/tick delivery, otto for the template family.",
+   technique="Lean 4 proof (induction over event histories) over a hand-written hook machine + per-operation refinement check against the hooked Location model + differential correspondence with the real code (three cron set-ups)", ref="5 (C15)"),
  "C16": dict(
    text="Lean 4 theorems (Props/C16.lean, 19) over executable models of cron.Cron (sorted timeline, pop/in-flight/re-schedule, suspend/pause/resume, timer arming) and of crolt's jobs/time buckets, proved by induction over arbitrary operation histories and audited on every run; "
         "comparison operators and decisive statements are regenerated from cron/cron.go and crolt/cron.go into Lean on every run; the models are tied to the code by differential runs (deterministic Add/Rem/replace histories, timed scenarios replayed with the recorded clock readings, "
